@@ -58,7 +58,10 @@ Inductive hop : Type :=
 | HRotate (cs : list nat)                   (* Tree.RotateInternalNodes() with the random choices cs *)
 | HSort                                     (* Tree.SortNeighborsByTips() *)
 | HRmSingle                                 (* Tree.RemoveSingleNodes() *)
-| HNni (k : nat) (undo : bool).             (* the k-th proposal of NNIRearranger: Apply (, Undo)  (History.ONni) *)
+| HNni (k : nat) (undo : bool)              (* the k-th proposal of NNIRearranger: Apply (, Undo)  (History.ONni) *)
+| HRemoveEdges (rr rt : bool) (idx : list nat)   (* RemoveEdges(rr, rt, the branches of Edges() at the positions idx, in Edges() order) *)
+| HCollapseLen (l : Q) (rr rt : bool)       (* Tree.CollapseShortBranches(l, rr, rt) *)
+| HCollapseSup (s : Q) (rr : bool).         (* Tree.CollapseLowSupport(s, rr) *)
 
 Local Open Scope string_scope.
 Definition err_no_node : string := "The node is not part of the tree".
@@ -135,6 +138,23 @@ Definition nni_apply_undo_at (r : nni) (undo : bool) (h : heap) : hres heap :=
   do h1 <- nni_apply_heap q h;
   if undo then nni_undo_heap q h1 else HOk h1.
 
+(** the branches at the positions [idx] of Edges(), in Edges() order (what the Collapse*
+    functions pass to RemoveEdges: a selection made while ranging over Edges()) *)
+Definition ids_from (k : nat) (idx : list nat) (L : list nat) : list nat :=
+  map snd (filter (fun p => existsb (Nat.eqb (fst p)) idx) (combine (seq k (length L)) L)).
+Definition ids_at (idx : list nat) (L : list nat) : list nat := ids_from 0 idx L.
+
+(** the branches in Edges() order, with their data and lower node *)
+Fixpoint ledges (t : ltree) : list (nat * einfo * ltree) :=
+  match t with
+  | LNode _ _ _ sl => flat_map (fun s : lslot => match s with Some (x, xi, c) => (x, xi, c) :: ledges c | None => [] end) sl
+  end.
+Definition sledges (sl : list lslot) : list (nat * einfo * ltree) :=
+  flat_map (fun s : lslot => match s with Some (x, xi, c) => (x, xi, c) :: ledges c | None => [] end) sl.
+(** for _, e := range t.Edges() { if g(e) { selected = append(selected, e) } } *)
+Definition ids_where (g : einfo -> bool) (lt : ltree) : list nat :=
+  map (fun p => fst (fst p)) (filter (fun p : nat * einfo * ltree => g (snd (fst p))) (ledges lt)).
+
 Definition run_hop_tree (o : hop) (t : utree) : res utree :=
   match o with
   | HReroot i => reroot t i
@@ -149,6 +169,9 @@ Definition run_hop_tree (o : hop) (t : utree) : res utree :=
   | HSort => Ok (sort_by_tips t)
   | HRmSingle => Ok (LocalEdit.remove_single t)
   | HNni k undo => History.nni_step k undo t
+  | HRemoveEdges rr rt idx => Ok (Collapse.remove_edges_idx rr rt idx t)
+  | HCollapseLen l rr rt => Ok (Collapse.collapse_len l rr rt t)
+  | HCollapseSup s rr => Ok (Collapse.collapse_sup s rr t)
   end.
 
 Fixpoint run_tree (ops : list hop) (t : utree) : res utree :=
@@ -197,6 +220,21 @@ Definition run_hop_heap (o : hop) (h : heap) : hres heap :=
       | Some r => nni_apply_undo_at r undo h
       | None => HOk h
       end
+    | None => HPanic
+    end
+  | HRemoveEdges rr rt idx =>
+    match dump h with
+    | Some lt => remove_edges_heap rr rt (ids_at idx (leids lt)) h
+    | None => HPanic
+    end
+  | HCollapseLen l rr rt =>
+    match dump h with
+    | Some lt => remove_edges_heap rr rt (ids_where (Collapse.sel_len l) lt) h
+    | None => HPanic
+    end
+  | HCollapseSup s rr =>
+    match dump h with
+    | Some lt => remove_edges_heap rr false (ids_where (Collapse.sel_sup s) lt) h
     | None => HPanic
     end
   end.
